@@ -51,18 +51,22 @@ var mains = map[string]func(){
 // CmdSpec is one simulated execution of a command, run in a child process of its own: option
 // parsing writes package-level variables, so no two commands share a process.
 type CmdSpec struct {
-	Name         string            `json:"name"`
-	Args         []string          `json:"args"`
-	Dir          string            `json:"dir"`
-	Stdin        string            `json:"stdin"`  // file redirected to fd 0 ("" = /dev/null)
-	Stdout       string            `json:"stdout"` // file that receives os.Stdout ("" = <dir>/stdout)
-	Knobs        map[string]int    `json:"knobs"`
-	PoolPolicy   int               `json:"pool_policy"`
-	YieldDensity int               `json:"yield_density"`
-	Policy       int               `json:"policy"`
-	MaxSteps     int               `json:"max_steps"`
-	Sched        simrt.SubTape     `json:"sched"`
-	Env          map[string]string `json:"env"`
+	Name   string   `json:"name"`
+	Args   []string `json:"args"`
+	Dir    string   `json:"dir"`
+	Stdin  string   `json:"stdin"`  // file redirected to fd 0 ("" = /dev/null)
+	Stdout string   `json:"stdout"` // file that receives os.Stdout ("" = <dir>/stdout)
+	// StdinFailAfter >= 0 (with StdinData): fd 0 is a socket that delivers StdinFailAfter bytes
+	// of StdinData and then fails with ECONNRESET - a real read(2) error on standard input
+	StdinFailAfter int               `json:"stdin_fail_after"`
+	StdinData      []byte            `json:"-"`
+	Knobs          map[string]int    `json:"knobs"`
+	PoolPolicy     int               `json:"pool_policy"`
+	YieldDensity   int               `json:"yield_density"`
+	Policy         int               `json:"policy"`
+	MaxSteps       int               `json:"max_steps"`
+	Sched          simrt.SubTape     `json:"sched"`
+	Env            map[string]string `json:"env"`
 }
 
 type CmdOutcome struct {
@@ -133,12 +137,14 @@ func SubCmdMain(t *testing.T) {
 	if in == "" {
 		in = os.DevNull
 	}
-	fin, err := os.Open(in)
-	if err != nil {
-		t.Fatal(err)
-	}
-	if err := syscall.Dup2(int(fin.Fd()), 0); err != nil {
-		t.Fatal(err)
+	if in != "@inherited" {
+		fin, err := os.Open(in)
+		if err != nil {
+			t.Fatal(err)
+		}
+		if err := syscall.Dup2(int(fin.Fd()), 0); err != nil {
+			t.Fatal(err)
+		}
 	}
 	os.Stdin = os.NewFile(0, "/dev/stdin")
 	outName := spec.Stdout
@@ -197,10 +203,36 @@ func (rc *RunCtx) RunCmd(spec CmdSpec) *CmdOutcome {
 	cmd.Stderr = &stderr
 	cmd.Stdout = &stderr
 	co := &CmdOutcome{}
+	var sockA *os.File
+	if spec.StdinData != nil && spec.StdinFailAfter >= 0 {
+		// a = our end, b = the child's fd 0.  b is given one byte that will never be read, so
+		// that closing a later resets the connection: the child reads the k bytes, then ECONNRESET
+		fds, err := syscall.Socketpair(syscall.AF_UNIX, syscall.SOCK_STREAM, 0)
+		if err != nil {
+			co.Crashed = true
+			co.Stderr = err.Error()
+			return co
+		}
+		syscall.CloseOnExec(fds[0])
+		syscall.CloseOnExec(fds[1])
+		sockA = os.NewFile(uintptr(fds[0]), "sock-a")
+		sockB := os.NewFile(uintptr(fds[1]), "sock-b")
+		k := spec.StdinFailAfter
+		if k > len(spec.StdinData) {
+			k = len(spec.StdinData)
+		}
+		sockA.Write(spec.StdinData[:k])
+		sockB.Write([]byte{0})
+		cmd.Stdin = sockB
+		defer sockB.Close()
+	}
 	if err := cmd.Start(); err != nil {
 		co.Crashed = true
 		co.Stderr = err.Error()
 		return co
+	}
+	if sockA != nil {
+		sockA.Close()
 	}
 	done := make(chan error, 1)
 	go func() { done <- cmd.Wait() }()
